@@ -90,10 +90,23 @@ fn reference_format(local: i128, off: i32, digits: usize) -> String {
 }
 
 fn case_write(day: i64, nod: u64, off: i32, k: usize, acc: &mut Acc) {
+    case_write_after(None, day, nod, off, k, acc)
+}
+
+/// `pred`: a day number written (and discarded) immediately before, on the same thread
+fn case_write_after(pred: Option<i64>, day: i64, nod: u64, off: i32, k: usize, acc: &mut Acc) {
     let x = match dt_from_off(day, nod, off) {
         Some(x) => x,
         None => return,
     };
+    if let Some(p) = pred {
+        match dt_from_off(p, nod, off) {
+            Some(px) => {
+                let _ = call(|| px.format_rfc3339(prec(k)));
+            }
+            None => return,
+        }
+    }
     let local = ins::join(day, nod) + off as i128 * ins::NS;
     let ly = ins::decompose(local).year;
     if !(1..=9999).contains(&ly) {
@@ -101,8 +114,11 @@ fn case_write(day: i64, nod: u64, off: i32, k: usize, acc: &mut Acc) {
     }
     acc.transitions += 2;
     acc.states += 1;
-    let case = || json!({"kind": "write", "day": day, "nod": nod.to_string(), "off": off, "prec": k});
+    let case = || json!({"kind": "write", "day": day, "nod": nod.to_string(), "off": off, "prec": k, "pred": pred});
     let got = call(|| x.format_rfc3339(prec(k)));
+    if pred.is_some() {
+        acc.branch("write-after-another-value");
+    }
     let digits = PRECS[k].0;
     let want = reference_format(local, off, digits);
     let s = match &got {
@@ -168,7 +184,7 @@ pub fn run(ctx: &Ctx) -> i32 {
     let mut rep = Report::new(ctx);
     rep.rule = "write side: states = (instant, offset, precision); the output must equal the reference RFC 3339 rendering, be accepted by an ABNF recogniser, and parse back to the instant truncated to the precision with the same offset. read side: every string of the bounded ABNF product must be accepted with exactly the denoted instant (fraction truncated to ns) and offset; every single-field mutation to an out-of-range value must be rejected; non-trivial = values with a sub-second part and rejected strings".into();
     rep.assumptions = vec!["second 60, lower-case t/z, year 0000 and non-grammatical strings are not judged here (C14 judges panics on them)".into()];
-    rep.require(&["write-read-roundtrip", "read-accepted", "read-rejected"]);
+    rep.require(&["write-read-roundtrip", "read-accepted", "read-rejected", "write-after-another-value"]);
     let checked = PROFILE == "checked";
     let d1 = cal::days_from_civil(1, 1, 1);
     let d9999 = cal::days_from_civil(9999, 12, 31);
@@ -183,6 +199,19 @@ pub fn run(ctx: &Ctx) -> i32 {
         case_write(day, nod, off, k, acc);
         if i % 10_000_019 == 0 {
             acc.sample(json!({"op": "format_rfc3339", "day": day, "nod": nod, "off": off, "precision": PRECS[k].1}));
+        }
+    });
+    // history independence: each landmark day right after a day at one of the code's own distances
+    let hdays: Vec<i64> = ab::days_b().into_iter().filter(|d| *d >= d1 && *d <= d9999).chain([d1, d1 + 1, 730_179, 719_162, 719_468, 146_097]).collect();
+    let dist = ab::dist_b();
+    let (nh, ndist) = (hdays.len() as u64, dist.len() as u64);
+    rep.sweep("write after another write: landmark days x DIST_B (epoch shifts and cycle lengths of the code) x {Z, +05:30} x 2 precisions", nh * ndist * 4, "the rendering of a value must not depend on the value rendered just before", |i, acc| {
+        let k = if i % 2 == 0 { 0 } else { 4 };
+        let off = if i / 2 % 2 == 0 { 0 } else { 19_800 };
+        let d = hdays[(i / 4 % nh) as usize];
+        let p = d + dist[(i / (4 * nh)) as usize];
+        if p >= d1 && p <= d9999 {
+            case_write_after(Some(p), d, 45_296_123_456_789, off, k, acc);
         }
     });
     let days: Vec<i64> = ab::days_b().into_iter().filter(|d| *d > d1 + 2 && *d < d9999 - 2).collect();
@@ -280,7 +309,7 @@ pub fn run(ctx: &Ctx) -> i32 {
 
 pub fn replay(_op: &str, case: &Value, acc: &mut Acc) -> bool {
     match case["kind"].as_str() {
-        Some("write") => case_write(case["day"].as_i64().unwrap(), case["nod"].as_str().unwrap().parse().unwrap(), case["off"].as_i64().unwrap() as i32, case["prec"].as_u64().unwrap() as usize, acc),
+        Some("write") => case_write_after(case["pred"].as_i64(), case["day"].as_i64().unwrap(), case["nod"].as_str().unwrap().parse().unwrap(), case["off"].as_i64().unwrap() as i32, case["prec"].as_u64().unwrap() as usize, acc),
         Some("read") => {
             let s = case["text"].as_str().unwrap();
             let e = recognise(s).map(|(l, o, _)| (l - o as i128 * ins::NS, o));
